@@ -37,6 +37,34 @@ let split_bar (ws : string list) : string list * string list =
     | x :: r -> go (x :: acc) r in
   go [] ws
 
+let show_rres r = match r with
+  | ROk b -> "ok more=" ^ (if b then "true" else "false") | RErr -> "err" | RPanic -> "panic" | RFuel -> "fuel"
+
+(* alterations of a (term-level) proof set, by position in the set; the harness applies the same
+   ones to the implementation's set:
+     drop:i | swap:i | retag:i:l|r|c | child:i:l|r|c:hex | pathflip:i:j | copy:i:j (node i also under key j) *)
+let retag_c c = match c with CH x -> CV x | CV x -> CH x
+let setval c v = match c with CH _ -> CH v | CV _ -> CV v
+let apply_mut ps m =
+  let len = List.length ps in
+  let nth i = List.nth ps i in
+  let upd i f = List.mapi (fun j (k, n) -> if j = i then (k, f n) else (k, n)) ps in
+  match String.split_on_char ':' m with
+  | ["drop"; i] -> let i = int_of_string i in List.filteri (fun j _ -> j <> i) ps
+  | ["swap"; i] -> upd (int_of_string i) (fun n -> match n with QBin (l, r) -> QBin (r, l) | e -> e)
+  | ["retag"; i; side] -> upd (int_of_string i) (fun n -> match n, side with
+      | QBin (l, r), "l" -> QBin (retag_c l, r) | QBin (l, r), "r" -> QBin (l, retag_c r)
+      | QEdge (p, c), _ -> QEdge (p, retag_c c) | e, _ -> e)
+  | ["child"; i; side; hex] -> let v = HC (z_of_hex hex) in upd (int_of_string i) (fun n -> match n, side with
+      | QBin (l, r), "l" -> QBin (setval l v, r) | QBin (l, r), "r" -> QBin (l, setval r v)
+      | QEdge (p, c), _ -> QEdge (p, setval c v) | e, _ -> e)
+  | ["pathflip"; i; j] -> let j = int_of_string j in upd (int_of_string i) (fun n -> match n with
+      | QEdge (p, c) -> QEdge (List.mapi (fun x b -> if x = j then not b else b) p, c) | e -> e)
+  | ["copy"; i; j] -> if int_of_string i >= len then ps else
+      let (_, ni) = nth (int_of_string i) in upd (int_of_string j) (fun _ -> ni)
+  | _ -> failwith ("mutation " ^ m)
+let apply_muts ps muts = List.fold_left apply_mut ps muts
+
 let parse_child s = (* tag + hex *)
   let v = z_of_hex (String.sub s 1 (String.length s - 1)) in
   if s.[0] = 'V' then CV v else CH v
@@ -69,6 +97,24 @@ let () =
             (set_of1 heqb hfun hb ha (h_prove1 pos t k));
           print_endline ("v2\t" ^ show_res show_term (h_verify2 pos t k));
           print_endline ("v1\t" ^ show_res show_term (h_verify1 pos t k))) keys
+    | "range2" :: h :: rest ->
+        (* range2 <height> ops | first | k:v ... | nil / left right | mutations *)
+        let hn = nat_of_int (int_of_string h) in
+        let rec parts acc cur = function
+          | [] -> List.rev (List.rev cur :: acc)
+          | "|" :: r -> parts (List.rev cur :: acc) [] r
+          | x :: r -> parts acc (x :: cur) r in
+        (match parts [] [] rest with
+         | [ops; [first]; kvs; proof; muts] ->
+             let t = h_run hn (List.map kv ops) in
+             let bits s = bits_of_Z hn (z_of_hex s) in
+             let kvs = List.map (fun s -> let (k, v) = kv s in (bits_of_Z hn k, HC v)) kvs in
+             let proof = match proof with
+               | ["nil"] -> None
+               | [l; r] -> Some (apply_muts (h_range_proof2 t (bits l) (bits r)) muts)
+               | _ -> failwith "range2 proof" in
+             print_endline (show_rres (h_range2 t (bits first) kvs proof))
+         | _ -> failwith "range2 parts")
     | "verify" :: kind :: root :: keybits :: entries ->
         let root = z_of_hex root and k = parse_bits keybits in
         let tb = ref [] in
